@@ -83,6 +83,13 @@ impl ProcFacts {
         if ce.2 != "ok" {
             return None;
         }
+        // scrut reads in rounds and looks at the time between them: when it then kills the
+        // process - which was still alive - that is where it stopped waiting
+        if let Some(k) = self.killed {
+            if self.exit_seq > k.2 && k.2 > ce.5 && self.wait_first.as_ref().map(|w| w.1 != "None").unwrap_or(true) {
+                return Some((k.0, ce.1, "timed_out"));
+            }
+        }
         match &self.wait_first {
             // the pipes reached EOF but the process ran on until the limit expired
             Some((t, r, ovh)) if r == "None" => Some((*t, *ovh, "timed_out")),
@@ -297,7 +304,10 @@ pub fn extract(sc: &Scenario, log: &[LogEntry]) -> Facts {
             LogEv::BgEnd { .. } => {}
             LogEv::CommBegin { pid, limit_ns } => {
                 ensure(&mut f, *pid);
-                f.procs[*pid as usize].comm_begin = Some((e.t, e.ovh, *limit_ns));
+                // (scrut may read in several rounds: the first one starts the clock)
+                if f.procs[*pid as usize].comm_begin.is_none() {
+                    f.procs[*pid as usize].comm_begin = Some((e.t, e.ovh, *limit_ns));
+                }
             }
             LogEv::CommEnd {
                 pid,
